@@ -301,7 +301,17 @@ func c12Body() func(h []dsim.Rec) {
 	if dsim.Choose(4) == 0 {
 		closeAt = time.Duration(dsim.Choose(50)) * time.Millisecond
 	}
-	dsim.Sleep(closeAt)
+	if dsim.Choose(3) == 2 {
+		// the close point is a scheduling step, not an instant: Close lands between two
+		// synchronisation operations of an otherwise unchanged schedule
+		k := dsim.Choose(4000)
+		count("cov:close-at-step")
+		for dsim.Step() < k {
+			dsim.Yield("close-at-step")
+		}
+	} else {
+		dsim.Sleep(closeAt)
+	}
 	returned := false
 	t0 := e.now()
 	dsim.Record("close-call", "", nil, int64(t0))
